@@ -299,8 +299,80 @@ def d3_columns(ctx):
                 okf = c.args and norm(expand_name(DefUse(fi.node), c.args[0], c)) == norm(ast.parse(f"self.shank_info[{key}][f'{{etype}}_open_file']", mode="eval").body)
                 ok = full_rows and okc and okf and loc_name(r.value) == "chunk"
                 detail = f"writes {src(r)} to {src(c.args[0]) if c.args else '?'}"
+    if not ok:
+        batched = _batched_split(fi)
+        if batched is not None:
+            verdict, why, node = batched
+            if verdict == "unknown":
+                raise AnalysisError(f"_split2shanks: batched split not understood: {why}")
+            ctx.check(verdict == "ok", fi, node, node, f"every shank file receives exactly its own columns ({why})",
+                      f"_split2shanks: {why}", key="split-write", name_free=True)
+            return
     ctx.check(ok, fi, fi.node, detail, "every shank file receives all rows of exactly its own columns",
               f"_split2shanks: {detail} - not chunk[:, shank_info[sh]['chns']] into that shank's open file", key="split-write")
+
+
+def _batched_split(fi):
+    """`frame = chunk[:, concatenate([chns of every shank])]` cut back into per-shank blocks with np.split: the cut points must be the
+    cumulative channel counts; np.split(frame, <int>) cuts EQUAL-width blocks (numpy model), which are the shanks' own columns only when
+    every shank has the same number of channels.  -> (verdict, explanation, node) or None when this idiom is not present."""
+    du = DefUse(fi.node)
+    tof = [c for c in find(fi.node, ast.Call) if call_name(c) == "tofile" and isinstance(c.func, ast.Attribute)]
+    for c in tof:
+        r = c.func.value
+        while isinstance(r, ast.Call) and call_name(r) in ("ascontiguousarray", "asarray", "array", "copy") and (r.args or isinstance(r.func, ast.Attribute)):
+            r = r.args[0] if r.args else r.func.value
+        if not isinstance(r, ast.Name):
+            continue
+        ds = du.strong_reaching(r.id, c)
+        if len(ds) != 1 or not isinstance(ds[0].stmt, ast.For):
+            continue
+        loop = ds[0].stmt
+        it = loop.iter
+        if not (isinstance(it, ast.Call) and call_name(it) == "zip" and len(it.args) == 2):
+            continue
+        # which zip slot is the block?
+        tgt = loop.target
+        if not (isinstance(tgt, ast.Tuple) and len(tgt.elts) == 2):
+            continue
+        slot = [i for i, e in enumerate(tgt.elts) if loc_name(e) == r.id]
+        if not slot:
+            continue
+        blocks = expand_name(du, it.args[slot[0]], loop)
+        owners = expand_name(du, it.args[1 - slot[0]], loop)
+        if not (isinstance(blocks, ast.Call) and call_name(blocks) in ("split", "array_split", "hsplit")):
+            return "unknown", f"blocks come from `{src(blocks)[:80]}`", c
+        frame = expand_name(du, blocks.args[0], loop)
+        spec = blocks.args[1] if len(blocks.args) > 1 else kwarg(blocks, "indices_or_sections")
+        if spec is None:
+            return "unknown", "np.split without cut specification", c
+        # the frame must gather the concatenation of every shank's chns, in the order of the owners
+        cols = None
+        if isinstance(frame, ast.Subscript) and isinstance(frame.slice, ast.Tuple) and len(frame.slice.elts) == 2 and loc_name(frame.value) == "chunk":
+            cols = expand_name(du, frame.slice.elts[1], loop)
+        if not (isinstance(cols, ast.Call) and call_name(cols) in ("concatenate", "hstack") and cols.args and isinstance(cols.args[0], (ast.ListComp, ast.GeneratorExp))):
+            return "unknown", f"frame `{src(frame)[:80]}` is not chunk[:, concatenate([...chns...])]", c
+        comp = cols.args[0]
+        over = expand_name(du, comp.generators[0].iter, loop)
+        same_order = norm(over) == norm(owners) or norm(comp.generators[0].iter) == norm(it.args[1 - slot[0]])
+        if not same_order:
+            return "unknown", f"columns are gathered over `{src(over)[:60]}` but blocks are paired with `{src(owners)[:60]}`", c
+        if "chns" not in src(comp.elt):
+            return "unknown", f"gathered columns `{src(comp.elt)}` are not the shanks' chns", c
+        sv = expand_name(du, spec, loop)
+        # integer section count -> equal widths
+        if isinstance(sv, ast.Call) and call_name(sv) == "len" or isinstance(sv, ast.Constant) and isinstance(sv.value, int) \
+                or (isinstance(sv, ast.Attribute) and sv.attr in ("size",)):
+            return "bad", (f"`{src(blocks)}` cuts the gathered frame into EQUAL-width blocks (np.split with a section count): each shank file receives "
+                           f"(total columns / number of shanks) columns instead of its own len(chns) - wrong columns in every per-shank file as soon as the shanks "
+                           f"do not all have the same number of channels"), blocks
+        # cumulative lengths without the last
+        txt = src(sv)
+        if isinstance(sv, ast.Subscript) and isinstance(sv.slice, ast.Slice) and sv.slice.upper is not None and const_value(sv.slice.upper) == (True, -1) \
+                and isinstance(sv.value, ast.Call) and call_name(sv.value) == "cumsum" and ("len(" in txt or ".size" in txt or "shape" in txt) and "chns" in txt:
+            return "ok", "cut points are the cumulative channel counts of the shanks", blocks
+        return "unknown", f"cut specification `{txt[:80]}` not understood", blocks
+    return None
 
 
 def _scatter_pairs(repo, q, source_attr):
